@@ -9,7 +9,7 @@ use fastcgi_server::async_io::Runner;
 use crate::c02::config;
 use crate::exec::Exec;
 use crate::gen::{self, BuiltReq, ReqSpec};
-use crate::handler::{self, HLog, Script, SharedLog};
+use crate::handler::{self, HLog, Op, Script, SharedLog};
 use crate::json::Json;
 use crate::rng::{mix, Rng};
 use crate::spec::{self, OutRec};
@@ -427,4 +427,25 @@ pub fn build_world<'a>(case: &ConnCase, rng: Rng) -> (World<'a>, Runner) {
 
 pub fn trace_tail(w: &World, n: usize) -> Vec<String> {
     w.trace.iter().rev().take(n).rev().map(|a| format!("{a:?}")).collect()
+}
+
+/// Turns a scripted connection into one driven by a client that does not wait for EndRequest
+/// (everything is sent at once): every handler reads its input streams to the end, so that the
+/// next request stays buffered behind the held terminator — the only hand-off at which the parsers
+/// can keep look-ahead that includes a BeginRequest (DESIGN §9.4). Callers exclude roles without
+/// input streams.
+pub fn make_pipelined(case: &mut ConnCase) {
+    // (the whole next request must fit into the look-ahead: large buffer, large pieces)
+    case.buffer = 8192;
+    case.max_piece = 100_000;
+    case.barriers.clear();
+    for (s, r) in case.scripts.iter_mut().zip(&case.reqs) {
+        let mut ops = vec![Op::ReadToEnd];
+        if r.preamble.role == crate::wire::FILTER {
+            ops.push(Op::SetStream(crate::wire::DATA));
+            ops.push(Op::ReadToEnd);
+        }
+        ops.extend(s.ops.iter().filter(|o| matches!(o, Op::Write(..) | Op::Flush(_) | Op::Yield)).cloned());
+        *s = Script { ops, propagate: true, status: s.status };
+    }
 }
